@@ -1214,9 +1214,13 @@ def processTypeDecl (T : Tables) (c : ClassId) (ctx : Ctx) (hasPut : Bool) (it :
       let n := lower selp.2
       if isName n then .ok n else .error .assertion
     else .ok clsname : M Str)
+  -- the statement that types the enclosing FUNCTION: ignored only when it declares nothing else;
+  -- otherwise it stays, with the function name removed from `entity_decls`
+  let others := decls.filter (· != ctx.parentName)
+  let decls' := if isFn && !others.isEmpty then others else decls
   .ok { node := some (.typedecl { cls := c, selector := selp, attrspec := attrspec,
-                                   entityDecls := decls, name := name }),
-        ignore := isFn, typedeclSet := isFn }
+                                   entityDecls := decls', name := name }),
+        ignore := isFn && others.isEmpty, typedeclSet := isFn }
 
 /-- the `for cls in …: if cls.match(spec): stmt = cls(self, item.copy(spec)); if stmt.isvalid: break`
     loop of `Allocate` / `Implicit`: the last statement tried (`none` = `stmt is None`) -/
@@ -1469,6 +1473,15 @@ def withItems (kw : Str) (items : List Str) : Str :=
 
 def withName (s name : Str) : Str := if name.isEmpty then s else s ++ [' '] ++ name
 
+/-- the `bits` of `Common.tofortran`; `first` = `bits` is still empty: a blank common block prints
+    its `//` unless it is the first block of the statement -/
+def commonBits : Bool → List (Str × List Str) → List Str
+  | _, [] => []
+  | first, (n, l) :: rest =>
+    let s := join commaSp l
+    (if !n.isEmpty then str "/ " ++ n ++ str " / " ++ s
+     else if !first then str "// " ++ s else s) :: commonBits false rest
+
 /-- does `tofortran` of this class call `get_indent_tab(deindent=True)`? -/
 def deindents : Node → Bool
   | .bare .Continue => true
@@ -1531,10 +1544,7 @@ def body (ctx : Ctx) : Node → M Str
     .ok (if !items.isEmpty then s ++ [' '] ++ join commaSp items else s)
   | .namelist items =>
     .ok (str "NAMELIST " ++ join commaSp (items.map fun (n, s) => n ++ [' '] ++ s))
-  | .common items =>
-    .ok (str "COMMON " ++ join [' '] (items.map fun (n, l) =>
-      let s := join commaSp l
-      if !n.isEmpty then str "/ " ++ n ++ str " / " ++ s else s))
+  | .common items => .ok (str "COMMON " ++ join [' '] (commonBits true items))
   | .entry name items result bind =>
     let s := str "ENTRY " ++ name
     let s := if !items.isEmpty then s ++ str " (" ++ join commaSp items ++ [')'] else s
